@@ -29,7 +29,7 @@ from y0.algorithm.identify.cg import (
     stitch_factual_and_dopplegangers,
     update_event,
 )
-from y0.dsl import CounterfactualVariable, Intervention, Variable
+from y0.dsl import CounterfactualVariable, Intervention, Variable, _sort_interventions
 from y0.graph import NxMixedGraph
 
 
@@ -219,3 +219,12 @@ def own_value(a):
     elif -base in a.interventions:
         return -base
     return None
+
+
+# ---- "the lower" of two copies (Lemma 25 keeps one name): ordered by name, then by the sorted subscripts written out one after the other, so a
+# ---- copy whose subscripts are a proper prefix of the other's -- the one with FEWER interventions -- comes first and is the one kept
+def lower_of_two_key(variable):
+    if isinstance(variable, CounterfactualVariable):
+        return variable.name, ",".join(i.to_y0() for i in _sort_interventions(variable.interventions))
+    else:
+        return variable.name, ""
